@@ -266,3 +266,50 @@ class _X05(BridgeProp):
 
 
 X05 = _X05()
+
+
+class _X06(BridgeProp):
+    id = "X06"
+    beyond = True
+    title = "scripts/get_device_login_key.py prints the login key of the first datagram from the given address heard within two seconds"
+    rule = ("the script run as __main__ on a scripted datagram socket and a clock that moves only while it waits: datagrams from the "
+            "device and from other addresses, before and after the two seconds, whole broadcasts of every model and short / empty "
+            "datagrams; distinct = distinct events")
+
+    def mc_runs(self, ctx):
+        return []
+
+    def execute(self, scn):
+        from ..clidrive import run_keyscript
+        return run_keyscript(scn)
+
+    def scenarios(self, ctx: Ctx):
+        rng = ctx.rng
+        out = []
+        ips = ["10.0.0.5", "192.168.1.33", "10.0.0.50", "10.0.0.5 ", "010.0.0.5"]
+        for n in range(ctx.pick(60, 600)):
+            ip = ips[n % 2]
+            others = [x for x in ips if x != ip]
+            dg = []
+            t = 0
+            for _ in range(rng.randrange(0, 6)):
+                t += rng.choice([0, 1, 50, 300, 700, 1200, 1900])
+                if 1950 <= t <= 2050:
+                    t = 2200
+                src = ip if rng.random() < 0.4 else rng.choice(others)
+                kind = rng.random()
+                if kind < 0.7:
+                    dg.append({"at": t, "src": src, "d": rdev(rng)})
+                else:
+                    dg.append({"at": t, "src": src, "raw": list(rng.randbytes(rng.choice([0, 1, 40, 41, 42, 100])))})
+            out.append({"ip": ip, "port": rng.choice([20002, 20003, 10002, 10003, 12345]), "dgrams": dg})
+        return out
+
+    def owns(self, clause):
+        return clause.startswith("X06:")
+
+    def nontrivial(self, ev):
+        return ev["ev"] == "KeyScript"
+
+
+X06 = _X06()
